@@ -74,14 +74,18 @@ JsonNewOK(B, n, outarea) ==
     /\ n.idbytes # <<>>
     /\ \E f \in TopFiles(B) : f.name = n.stem /\ f.eid = n.idbytes
 JsonOK(B, A, outarea, clean) ==
-    LET new == {a \in A : \A b \in B : b.path # a.path \/ b.area # a.area}
-        gone == {b \in B : \A a \in A : a.path # b.path \/ a.area # b.area}
-        kept == {b \in B : \E a \in A : a.path = b.path /\ a.area = b.area}
-    IN  /\ \A n \in new : JsonNewOK(B, n, outarea)
-        /\ \A b \in kept : \E a \in A : a.path = b.path /\ a.area = b.area /\ a.sha = b.sha /\ a.type = b.type
+    LET same(x, y) == x.path = y.path /\ x.area = y.area
+        \* files created, or existing files whose content was replaced (a second --json
+        \* run overwrites the outputs of the first)
+        written == {a \in A : \A b \in B : ~same(a, b) \/ b.sha # a.sha}
+        gone == {b \in B : \A a \in A : ~same(a, b)}
+    IN  /\ \A w \in written : JsonNewOK(B, w, outarea)
+        /\ \A b \in B : \A a \in A : same(a, b) => a.type = b.type
         /\ (~clean => gone = {})
-        \* with --clean only inputs whose output was created may go (C12 says when)
-        /\ (clean => \A g \in gone : g \in TopFiles(B) /\ \E n \in new : n.stem = g.name)
+        \* with --clean only inputs whose output exists afterwards may go (C12 says when)
+        /\ (clean => \A g \in gone : /\ g \in TopFiles(B)
+                                      /\ \E a \in A : /\ a.area = outarea /\ a.depth = 0 /\ a.type = "f"
+                                                       /\ a.stem = g.name /\ a.idbytes = g.eid)
 
 \* --file F [--clean]: nothing changes, except that --clean may remove F itself
 FileOK(B, A, clean, fpath) ==
